@@ -62,6 +62,9 @@ class Node:
         while st:
             n = st.pop()
             yield n
+            ib = n.d.get("ibody")
+            if ib is not None:
+                st.append(self.fn.nodes[ib])   # the body of the inlined helper this call stands for
             for c in reversed(n.kids):
                 if c is not None:
                     st.append(c)
@@ -173,6 +176,10 @@ class Function:
             for c in n.d["c"]:
                 if c >= 0:
                     self.nodes[c].parent = n
+        for n in self.nodes:
+            ip = n.d.get("iparent")
+            if ip is not None:
+                n.parent = self.nodes[ip]      # body of an inlined helper hangs below the call it replaces
         self.body = self.nodes[d["body"]]
         cfg = d["cfg"]
         self.entry = cfg["entry"]
@@ -293,12 +300,51 @@ class Function:
     def edge_cond(self, bid, succ_index):
         """(leaf node, polarity) that holds when control takes successor `succ_index` of `bid`."""
         b = self.blocks[bid]
-        if len(b["succs"]) != 2:
+        if len(b["succs"]) != 2 or b.get("termk") == "SwitchStmt":
             return None
         c = self.block_cond(bid)
         if c is None:
             return None
         return norm_cond(c, succ_index == 0)
+
+    def switch_cond(self, bid):
+        """the controlling expression of a switch that ends block `bid`, else None"""
+        b = self.blocks[bid]
+        if b.get("termk") != "SwitchStmt":
+            return None
+        c = b.get("cond")
+        return self.nodes[c] if isinstance(c, int) and c >= 0 else None
+
+    def switch_takes(self, bid, succ_index, value):
+        """does a switch on `value` at the end of block `bid` take successor number `succ_index`?"""
+        succs = self.blocks[bid]["succs"]
+        def lab(i):
+            s = succs[i]
+            return self.blocks[s["b"]] if s is not None else {}
+        match = [i for i in range(len(succs)) if any(lo <= value <= hi for lo, hi in lab(i).get("cases", []))]
+        if match:
+            return succ_index in match
+        dflt = [i for i in range(len(succs)) if lab(i).get("default")]
+        if dflt:
+            return succ_index in dflt
+        return succ_index in [i for i in range(len(succs)) if succs[i] is not None and not lab(i).get("cases")]
+
+    def edge_cond_resolved(self, bid, succ_index):
+        """edge_cond with a condition that is a single-definition local replaced by its defining expression:
+        `const int r = <expr>; if (r)` (also the result variable of an inlined helper) tests <expr>"""
+        ec = self.edge_cond(bid, succ_index)
+        if ec is None:
+            return None
+        leaf, pol = ec
+        for _ in range(4):
+            if leaf is not None and leaf.k == "DeclRefExpr" and leaf.dk == "local" and leaf.did:
+                v = self.reaching_def(leaf)
+                if v is None:
+                    break
+                leaf, pol = norm_cond(v, pol)
+            else:
+                break
+        return (leaf, pol)
 
     # ------------------------------------------------------------------ path search
     def find_path(self, start, target, barrier=None, edge_ok=None):
@@ -393,7 +439,13 @@ class Function:
             ec = self.edge_cond(b, idx)
             if ec is None:
                 return True
-            return not cond_pred(ec[0], ec[1])
+            if cond_pred(ec[0], ec[1]):
+                return False
+            # the same condition with a result local replaced by the expression it holds
+            rc = self.edge_cond_resolved(b, idx)
+            if rc is not None and rc[0] is not ec[0] and cond_pred(rc[0], rc[1]):
+                return False
+            return True
         return self.find_path("entry", lambda n: n is node, edge_ok=edge_ok)
 
     def path_between(self, a, b_pred, barrier=None):
@@ -470,8 +522,8 @@ class Function:
                     p = n.parent
                     while p is not None and p.k in ("ImplicitCastExpr", "CStyleCastExpr", "ParenExpr"):
                         p = p.parent
-                    if p is not None and p.k in ("CallExpr", "AtomicExpr"):
-                        site = p
+                    if p is not None and (p.k in ("CallExpr", "AtomicExpr") or (p.k == "DeclStmt" and p.synthetic == "param")):
+                        site = p   # (a pointer parameter of an inlined helper: bound after all arguments were evaluated)
                     d.setdefault(r.did, []).append(("addr", site, None))
         self._defs = d
         return d
@@ -795,7 +847,12 @@ class Program:
         census = inline.load_census()
         loaded = [(u, json.load(open(os.path.join(factdir, u["json"])))) for u in manifest["units"]]
         self.inlined = []
+        for _, d in loaded:
+            for fd in d["functions"]:
+                inline.split_returns(fd)
+                inline.name_constants(fd)
         inline.alias_renamed([fd for _, d in loaded for fd in d["functions"]], self.rel, census, inline.load_signatures(), self.inlined)
+        inline.alias_params([fd for _, d in loaded for fd in d["functions"]], inline.load_signatures(), self.inlined)
         taken = inline._addr_taken([fd for _, d in loaded for fd in d["functions"]])
         gone = inline.inline_program([d["functions"] for _, d in loaded], census, taken, self.inlined)
         for u, d in loaded:
